@@ -320,7 +320,7 @@ func (g *Gen) frameFormula(fam string, now Term) (Term, bool) {
 			excl = append(excl, not(eq(r, *e.Target)))
 		}
 	}
-	conds := append([]Term{{app("<=", "0", r.S), SBool}, {app("<", r.S, g.entry.alloc.S), SBool}}, excl...)
+	conds := append([]Term{{app("<", "0", r.S), SBool}, {app("<", r.S, g.entry.alloc.S), SBool}}, excl...)
 	body := implies(and(conds...), eq(sel(now, r), sel(was, r)))
 	return Term{fmt.Sprintf("(forall ((%s Int)) %s)", r.S, body.S), SBool}, true
 }
